@@ -1,0 +1,47 @@
+//go:build verif
+// +build verif
+
+// Package quic (verif build): a stub with the same exported names as the real
+// transport that never imports quic-go, so that the root package links under
+// the pinned toolchain (qtls panics in init otherwise). QUIC is unavailable in
+// verif builds; every entry point reports an error.
+package quic
+
+import (
+	"context"
+	"crypto/tls"
+	"errors"
+	"net"
+)
+
+// Config is a placeholder for quic-go's Config.
+type Config struct{}
+
+var errNoQUIC = errors.New("quic: not available in verif builds")
+
+// Listener is a placeholder for the QUIC listener.
+type Listener struct{ net.Listener }
+
+// Close closes the listener.
+func (l *Listener) Close() error {
+	if l == nil || l.Listener == nil {
+		return nil
+	}
+	return l.Listener.Close()
+}
+
+// Conn is a placeholder for the QUIC connection.
+type Conn struct{ net.Conn }
+
+// DialAddrContext always fails in verif builds.
+func DialAddrContext(ctx context.Context, network string, laddr *net.UDPAddr, raddr string, tlsConf *tls.Config, config *Config) (net.Conn, error) {
+	return nil, errNoQUIC
+}
+
+// InheritedListen always fails in verif builds.
+func InheritedListen(network, laddr string, tlsConf *tls.Config, config *Config) (net.Listener, error) {
+	return nil, errNoQUIC
+}
+
+// SetInherited does nothing in verif builds.
+func SetInherited() error { return nil }
